@@ -397,6 +397,36 @@ func GenWorld(r *Run, o GenOpts) *World {
 				r.Probe("protected-files-sharing-a-base-name")
 			}
 		}
+		if dict := sourceDict(); len(dict) > 0 && t.Bool(1, 12, "dictionary-name") {
+			// a name built around a string literal of the source tree under
+			// test (suffixes, extensions, directory names the code itself uses)
+			tok := dict[t.Draw(len(dict), "token")]
+			cand := ""
+			switch t.Draw(4, "shape") {
+			case 0:
+				if i > 0 {
+					cand = w.Files[i-1].Name + tok
+				} else {
+					cand = fmt.Sprintf("f%d", i) + tok
+				}
+			case 1:
+				cand = tok + fmt.Sprint(i)
+			case 2:
+				cand = tok + "/" + fmt.Sprintf("f%d", i)
+			default:
+				cand = fmt.Sprintf("f%d.", i) + tok
+			}
+			used := false
+			for _, f := range w.Files {
+				if f.Name == cand {
+					used = true
+				}
+			}
+			if !used && !strings.HasPrefix(cand, ".") && len(cand) < 200 && !((o.Par1 || o.NoSubdirs) && strings.Contains(cand, "/")) {
+				name = cand
+				r.Probe("name-from-source-dictionary")
+			}
+		}
 		if i > 0 && t.Bool(1, 14, "name-extends-previous") {
 			// the previous file's name with a suffix that temporary or backup
 			// copies usually get: both are protected files of the set
@@ -612,7 +642,12 @@ func GenWorld(r *Run, o GenOpts) *World {
 	// member's name (editor backups, temporary files)
 	if t.Bool(1, 6, "name-extending-bystanders") {
 		f := w.Files[t.Draw(len(w.Files), "ext-of")]
-		for _, suffix := range []string{".tmp", "~", ".bak", ".part"} {
+		suffixes := []string{".tmp", "~", ".bak", ".part"}
+		if dict := sourceDict(); len(dict) > 0 {
+			// ... and whatever suffix-like literals the source tree contains
+			suffixes = append(suffixes, dict[t.Draw(len(dict), "token")], "."+dict[t.Draw(len(dict), "token2")])
+		}
+		for _, suffix := range suffixes {
 			if t.Bool(1, 2, "ext") {
 				p := filepath.Join(w.Dir, f.Name+suffix)
 				if w.isProtectedPath(p) {
